@@ -29,6 +29,7 @@ import NeoModel.Proofs.WireItemDag
 import NeoModel.Proofs.WireObj
 import NeoModel.Proofs.WireItemJson
 import NeoModel.Proofs.WireItemJsonU
+import NeoModel.Proofs.WireNefEntry
 namespace NeoModel.Wire
 open Codec
 open NeoModel.Generated
@@ -715,12 +716,13 @@ example : serializeG false [.array [.ref 0]] (.ref 0) = none := by decide
 
 /-! ## cached size and hash of an object -/
 
-/-- C17 (transaction object) decoding into an object whose size cache is unset — a fresh `&Transaction{}` or a
-`Copy()` — fills both caches with the truth: size = length of the encoding, hash = hash of the hashed fields. -/
-theorem txobj_decode_fills_caches (H : Bytes → Bytes) (cv : Curve) (o o' : TxObj) (b : Bytes) (hz : o.size = 0)
+/-- C17 (transaction object) decoding into ANY object — fresh, a `Copy()`, or one that was used before — fills both
+caches with the truth: size = length of the encoding, hash = hash of the hashed fields (after fix 67279e2, which this
+check's finding tx-reuse-stale-size led to). -/
+theorem txobj_decode_fills_caches (H : Bytes → Bytes) (cv : Curve) (o o' : TxObj) (b : Bytes)
     (hd : o.decode H cv b = some o') :
     o'.size = ((txC cv).enc o'.v).length ∧ o'.hashed = true ∧ o'.hash = txHash H cv o'.v ∧ o'.Coherent H cv :=
-  TxObj.decode_unset H cv o o' b hz hd
+  TxObj.decode_fills H cv o o' b hd
 
 /-- C17 (transaction object) `Copy()` resets the caches: whatever is edited in the copy afterwards, its `Size()` is
 the length of ITS encoding and its `Hash()` the hash of ITS hashed fields (seed C17-m4 removed the reset). -/
@@ -730,40 +732,46 @@ theorem txobj_copy_then_edit (H : Bytes → Bytes) (cv : Curve) (o : TxObj) (f :
   have h := TxObj.coherent_queries H cv (o.copy.edit f) (TxObj.copy_edit_coherent H cv o f)
   exact ⟨h.1, h.2.2.1⟩
 
-/-- C17 (transaction object) coherent caches (unset, or equal to what the content encodes to) are preserved by
-`Size()` and `Hash()`, which then report the length of the encoding and the hash of the hashed fields; `new`, `Copy()`
-and `NewTransactionFromBytes` of canonical bytes give coherent objects. -/
+/-- C17 (transaction object) cache coherence, full statement: `new`, `Copy()`, `NewTransactionFromBytes` of canonical
+bytes and `DecodeBinary` into ANY object give coherent caches (unset, or equal to what the content encodes to);
+`Size()` and `Hash()` preserve coherence and report the length of the encoding and the hash of the hashed fields. -/
 theorem txobj_coherent (H : Bytes → Bytes) (cv : Curve) (hs : cv.Sound) :
     TxObj.new.Coherent H cv ∧ (∀ o : TxObj, o.copy.Coherent H cv)
     ∧ (∀ t, (txC cv).wf t → ∃ o, TxObj.fromBytes H cv ((txC cv).enc t) = some o ∧ o.v = t ∧ o.Coherent H cv)
+    ∧ (∀ (o o' : TxObj) b, o.decode H cv b = some o' → o'.Coherent H cv)
     ∧ (∀ o : TxObj, o.Coherent H cv → (o.sizeOf cv).2 = ((txC cv).enc o.v).length ∧ (o.sizeOf cv).1.Coherent H cv
         ∧ (o.hashOf H cv).2 = txHash H cv o.v ∧ (o.hashOf H cv).1.Coherent H cv) :=
-  ⟨TxObj.new_coherent H cv, TxObj.copy_coherent H cv, TxObj.fromBytes_canonical H cv hs, TxObj.coherent_queries H cv⟩
+  ⟨TxObj.new_coherent H cv, TxObj.copy_coherent H cv, TxObj.fromBytes_canonical H cv hs,
+    fun o o' b hd => (TxObj.decode_fills H cv o o' b hd).2.2.2, TxObj.coherent_queries H cv⟩
+
+/-- C17 (extensible object) an Extensible decoded into — used or not — answers `Hash()` with the hash of its new
+content (after fix 264f88d, which this check's finding extensible-reuse-stale-hash led to). -/
+theorem extobj_decode_hash (H : Bytes → Bytes) (o o' : ExtObj) (b : Bytes) (hd : o.decode b = some o') :
+    (o'.hashOf H).2 = extensibleHash H o'.v := ExtObj.decode_hash H o o' b hd
 
 /-
-cache_coherent, full statement (FALSE on the unchanged tree): after ANY successful `DecodeBinary` the cached size is the
-length of the encoding and the cached hash the hash of the content — also when the object was used before (the
-documentation of Transaction.Hash()/Size() names decoding as the way to refresh the caches). `Transaction.DecodeBinary`
-ends with `_ = t.Size()`, which returns the OLD size when one is cached (known finding tx-reuse-stale-size);
-`Extensible.DecodeBinary` never resets the cached hash (known finding extensible-reuse-stale-hash). Proved above:
-the statement for objects whose size cache is unset (`txobj_decode_fills_caches`); below: the negation on witnesses.
+Regression examples: the rules BEFORE the two fixes (`TxObj.decodeOld`: `_ = t.Size()` without resetting the size;
+`ExtObj.decodeOld`: the cached hash survives) violated cache coherence. The witnesses are kept: a change that brings
+the old rule back makes the tie disagree on exactly these method sequences (harness obj.go / cache.go).
 -/
 
-/-- C17 NEGATION (transaction object): decode the non-minimal bytes of `tx0` from bytes (size 55), then decode the
-canonical bytes into the same object: the content is `tx0`, whose encoding has 53 bytes; `Size()` still says 55. -/
+/-- regression (old rule of Transaction.DecodeBinary): decode the non-minimal bytes of `tx0` from bytes (size 55), then
+decode the canonical bytes into the same object: the content is `tx0`, whose encoding has 53 bytes; `Size()` said 55.
+With the fixed rule it says 53. -/
 theorem txobj_redecode_stale_size (H : Bytes → Bytes) :
-    ∃ o o', TxObj.fromBytes H anyCurve tx0NonMinimal = some o ∧ o.decode H anyCurve tx0Bytes = some o'
-      ∧ o'.v = tx0 ∧ (o'.sizeOf anyCurve).2 = 55 ∧ ((txC anyCurve).enc o'.v).length = 53 :=
-  ⟨⟨tx0, 55, true, H (tx0NonMinimal.take 52)⟩, ⟨tx0, 55, true, txHash H anyCurve tx0⟩, by rfl, by rfl, rfl, by rfl,
-    by show ((txC anyCurve).enc tx0).length = 53; decide⟩
+    ∃ o o' o'', TxObj.fromBytes H anyCurve tx0NonMinimal = some o ∧ o.decodeOld H anyCurve tx0Bytes = some o'
+      ∧ o'.v = tx0 ∧ (o'.sizeOf anyCurve).2 = 55 ∧ ((txC anyCurve).enc o'.v).length = 53
+      ∧ o.decode H anyCurve tx0Bytes = some o'' ∧ (o''.sizeOf anyCurve).2 = 53 :=
+  ⟨⟨tx0, 55, true, H (tx0NonMinimal.take 52)⟩, ⟨tx0, 55, true, txHash H anyCurve tx0⟩, ⟨tx0, 53, true, txHash H anyCurve tx0⟩,
+    by rfl, by rfl, rfl, by rfl, by show ((txC anyCurve).enc tx0).length = 53; decide, by rfl, by rfl⟩
 
 def ext1 : Extensible := ⟨[1], 0, 0, List.replicate 20 0, [], ⟨[], []⟩⟩
 def ext2 : Extensible := ⟨[2], 0, 0, List.replicate 20 0, [], ⟨[], []⟩⟩
 
-/-- C17 NEGATION (extensible object): an object that answered `Hash()` keeps that answer after another payload is
-decoded into it; for an injective `H` it is not the hash of its content. -/
+/-- regression (old rule of Extensible.DecodeBinary): an object that answered `Hash()` kept that answer after another
+payload was decoded into it; for an injective `H` that is not the hash of its content. -/
 theorem extobj_redecode_stale_hash (H : Bytes → Bytes) (hinj : ∀ x y, H x = H y → x = y) :
-    ∃ (o : ExtObj) (b : Bytes) (o' : ExtObj), o.decode b = some o' ∧ o'.v = ext2
+    ∃ (o : ExtObj) (b : Bytes) (o' : ExtObj), o.decodeOld b = some o' ∧ o'.v = ext2
       ∧ (o'.hashOf H).2 ≠ extensibleHash H o'.v := by
   refine ⟨⟨ext1, some (extensibleHash H ext1)⟩, extensibleC.enc ext2, ⟨ext2, some (extensibleHash H ext1)⟩, by rfl, rfl, ?_⟩
   intro he
@@ -890,5 +898,38 @@ theorem item_json_untyped_bounded (maxCount : Nat) (b : Bytes) (v : Item)
 example : fromJSONU 5 [0x5b, 0x31, 0x2c, 0x7b, 0x22, 0x61, 0x22, 0x3a, 0x32, 0x7d, 0x5d]
     = some (some (.array [.int [1], .map [(.byteArray [0x61], .int [2])]])) := by rfl
 example : fromJSONU 4 [0x5b, 0x31, 0x2c, 0x7b, 0x22, 0x61, 0x22, 0x3a, 0x32, 0x7d, 0x5d] = some none := by rfl
+
+/-! ## NEF file: every decoding entry point gives the same verdict -/
+
+/-- C17 (NEF, entry points) for bytes within MaxSize: `nef.FileFromBytes` accepts ⟺ `File.DecodeBinary` accepts (the
+same file) ⟺ the body decodes, four bytes follow, and they are the checksum of the CANONICAL re-encoding of the decoded
+body (`CalculateChecksum` serialises the struct) — not of the bytes as written. A non-canonical spelling (non-minimal
+var-uint, bool byte 2) sealed with the checksum of its own bytes is therefore refused by both, one carrying the
+checksum of the canonical bytes is accepted by both and canonicalised. Seed C17-m5 made `FileFromBytes` hash the input
+bytes instead. -/
+theorem nef_accept_iff (H : Bytes → Bytes) (b : Bytes) (hl : b.length ≤ WireLimits.stackMaxSize) (n : Nef) :
+    (nefFromBytes H b = some n ↔ ∃ r, nefDecodeBinary H b = some (n, r))
+    ∧ ((∃ r, nefDecodeBinary H b = some (n, r)) ↔
+        ∃ r' r, nefBodyC.dec b = some (n.body, r') ∧ (uintLE 4).dec r' = some (n.checksum, r)
+          ∧ n.checksum = checksumOf H (nefBodyC.enc n.body)) := nef_entry_points_iff H b hl n
+
+/-- C17 (NEF) what `FileFromBytes` accepts re-encodes (`Bytes()`, within MaxSize because re-encoding never needs more
+bytes than were read) to bytes `FileFromBytes` accepts again as the same file. -/
+theorem nef_frombytes_reencode_stable (H : Bytes → Bytes) (b : Bytes) (n : Nef) (h : nefFromBytes H b = some n) :
+    nefBytes H n = some ((nefC H).enc n) ∧ nefFromBytes H ((nefC H).enc n) = some n := nef_frombytes_reencode H b n h
+
+/-- a "hash" that tells byte strings of different length apart (enough for the example below). -/
+def lenHash (x : Bytes) : Bytes := leBytes 4 x.length
+
+/-- the smallest NEF file: empty compiler and source, no tokens, script 0x40. -/
+def nef0 : Nef := ⟨⟨[], [], [], [0x40]⟩, 75⟩
+def nef0Bytes : Bytes := (nefC lenHash).enc nef0
+
+-- non-vacuity: nef0 is accepted through both entry points; its Source length (offset 68) written `fd 00 00` with the
+-- SAME checksum is accepted too and canonicalised; with the checksum recomputed over the bytes as written (body two
+-- bytes longer) it is refused
+example : nefFromBytes lenHash nef0Bytes = some nef0 := by rfl
+example : nefFromBytes lenHash (nef0Bytes.take 68 ++ [0xfd, 0, 0] ++ nef0Bytes.drop 69) = some nef0 := by rfl
+example : nefFromBytes lenHash (nef0Bytes.take 68 ++ [0xfd, 0, 0] ++ (nef0Bytes.drop 69).take 6 ++ leBytes 4 77) = none := by rfl
 
 end NeoModel.Wire
